@@ -261,6 +261,12 @@ def expand(item):
 
 
 def replay(case):
+    if case.get("scale") == "copy":
+        out = []
+        for k in range(7):
+            a = scale_work(("many-prefixes", k))
+            out += [p for ps in a.problems.values() for p in ps if p["case"].get("history") == case["history"]]
+        return out
     if case.get("scale") == "failed-attach":
         a = scale_work(("failed-attach", None))
         return [p for ps in a.problems.values() for p in ps if core.jsonable(p["case"]) == core.jsonable(case)]
@@ -295,9 +301,26 @@ def scale_work(item):
                     history += [["declare", 0, "late", "u-late"], ["remove", 0, P[0]]]
                     n += 1
                     try:
-                        replay_history(4, history)
+                        nodes_, model_ = replay_history(4, history)
                     except PrefixFailed as e:
                         acc.add_problems([dict(p_, case=dict(p_["case"], scale="many-prefixes")) for p_ in e.probs])
+                        continue
+                    # copying is not a namespace operation: the copy shows, node for node, the bindings of its source, and the
+                    # source keeps its own (a child may lack a prefix of its parent after the removal above)
+                    def pre(x, out):
+                        out.append(dict(x.nsmap))
+                        for c_ in x.children:
+                            pre(c_, out)
+                        return out
+                    src = pre(nodes_[0], [])
+                    try:
+                        cp = nodes_[0].copy()
+                        got = pre(cp, [])
+                    except Exception as e:  # noqa
+                        got = repr(e)
+                    if got != src or pre(nodes_[0], []) != src:
+                        acc.add_problem(problem("binding_mismatch", {"config": {"k": 4}, "history": history, "op": ["copy", 0], "scale": "copy"},
+                                                expected=src, observed=got, op="copy"))
     elif kind == "failed-attach":
         # an attach that fails (the index is not a number) is not an attach: no binding, no parent link, no child list changes
         for decl_p in ([], [["p", "u1"]], [["p", "u1"], ["q", "u2"]]):
